@@ -15,6 +15,7 @@ MANIFEST = dict(
           "and parametric() never raises (its assert included); a plane through three non-collinear points contains them; -P has the opposite normal and the same points; Line(p, q), Line(p, q - p) and Line(position vector, direction) denote the same line and "
           "parametric() reproduces it."),
     note="A1, A5 (Vector.parallel / orthogonal / == by their exact contracts). solve() enters by its contract (truthy <=> consistent, unknowns - rank free values, result solves the system and contains the free values), not its body; the last clause is not part of C16 and is proved here on the real solver for the 1x3 and 2x3 systems these functions pose (callee-contract groups: if it is ever refuted the dependent proofs are void and their clauses are searched natively).",
+    technique='contract-based deductive verification of the Plane / Line constructor and read-back forms against the contract of solve(), with callee-contract groups for the clause C16 does not state (z3)',
     design_ref="DESIGN.md section 9 (C17)",
 )
 EXPLANATION = "all constructor forms and read-back forms, symbolic coefficients (hence every zero pattern of the normal / direction)"
